@@ -21,7 +21,7 @@ MCNext == Next /\ Tick /\ (MaxSteps = 0 \/ n < MaxSteps)
 
 (* history variables that do not influence behaviour are hidden from the    *)
 (* fingerprint; budget stays (it bounds the model)                          *)
-View == <<closed, conn, nconn, advertised, new, snd, readers, wire, peerTable, peerAlive,
+View == <<closed, conn, nconn, advertised, new, snd, call, readers, wire, peerTable, peerAlive,
           lastRequested, sentTable, budget>>
 
 WireBound == Len(wire) <= MaxWire
@@ -34,6 +34,7 @@ Fair ==
   /\ WF_mcvars(SenderStep /\ Tick)
   /\ WF_mcvars(WriteFails /\ Tick)
   /\ WF_mcvars(ReaderStep /\ Tick)
+  /\ WF_mcvars(RunCall /\ Tick)
   /\ WF_mcvars(PeerRecv /\ Tick)
 LiveSpec == Spec /\ Fair
 
@@ -41,8 +42,6 @@ LiveSpec == Spec /\ Fair
 (* requested set (or the session was closed)                                *)
 EventuallyConverged == <>[](closed \/ (Settled /\ peerTable = lastRequested))
 
-StateRec == [closed |-> closed, up |-> conn # 0, adv |-> advertised, new |-> new, pc |-> snd.pc,
-             alive |-> peerAlive]
 Emit == PrintT(ToJson([n |-> n, last |-> act, act |-> act']))
 
 (* role B, simulation: the same actions with the environment's choices thinned out so that a    *)
@@ -52,8 +51,10 @@ SimTargets == {Empty, RandomElement(Tables),
                [lastRequested EXCEPT ![RandomElement(Routes)] = RandomElement(Attrs \cup {ABSENT})]}
 SimNext ==
   /\ Tick /\ n < MaxSteps
-  /\ \/ \E S \in SimTargets : Set(S)
+  /\ \/ \E S \in SimTargets : Set(S) \/ CallSet(S)
      \/ (RandomElement(1..10) = 1 /\ Close)
+     \/ (RandomElement(1..4) = 1 /\ CallClose)
+     \/ RunCall
      \/ (RandomElement(1..2) = 1 /\ PeerDrops)
      \/ (RandomElement(1..2) = 1 /\ ConnectRefused)
      \/ SenderStep \/ WriteFails \/ ReaderStep \/ PeerRecv
